@@ -49,6 +49,7 @@ void vf_budget(long) {}
 int vf_is_symbolic(void) { return 0; }
 long vf_concretize(long v) { return v; }
 }
+#ifndef NOMAIN
 int main(int argc, char** argv)
 {
     if (argc < 2) { fprintf(stderr, "usage: harness entry [--inputs file | --random seed --record file]\n"); return 2; }
@@ -67,3 +68,4 @@ int main(int argc, char** argv)
     if (rec) fclose(rec);
     return nfail ? 1 : 0;
 }
+#endif
